@@ -74,6 +74,12 @@ claim("C11",
       "the NotConnected reaction reconnects only after an involuntary drop; T7 expiry and read errors at any byte funnel into exactly one link-down report.",
       "Trusted: executor + virtual time, model transport, z3 (FP tactic). Outside: real sockets/listeners, end-to-end re-selection after recovery, multipliers off the grid / T5 > 18 min, SECS-I.")
 
+claim("C10",
+      "NARROW claim: bounded exploration, by the symbolic executor with a cooperative scheduler and virtual time, of SEQUENTIAL Open/Close call histories (length 3, thorough 4) on the real lifecycle code against three peer behaviours, plus a wedged-teardown Close and drop-then-Close: "
+      "double Open -> ErrAlreadyOpen with no side effects, Close before Open -> ErrNotOpen, re-Close idempotent (retained result, no side effects), after Close State()==NotConnected, every library goroutine finished, no socket left, no dial ever again, reopen gets a fresh supervisor and selects like a first open, Close bounded by the close timeout (ErrCloseTimeout when the join is wedged). "
+      "The concurrent-mix, real-I/O and wall-clock sub-claims of the property are NOT covered (listed as outside in the evidence).",
+      "Trusted: executor + ONE deterministic schedule per history, virtual time (natively testing/synctest, 24 vectors cross-validated), model transport. Outside/N-A: concurrent Open/Close/send/config mixes, real sockets/listeners, latency under real scheduling, SECS-I.")
+
 for _p, _r in {
     "C03": "check not yet registered in this session (work in progress, see DESIGN.md §3)",
     "C04": "check not yet registered in this session (work in progress, see DESIGN.md §3)",
